@@ -22,7 +22,7 @@ RULE = ("same generated domain as C01, with boundary requests (exactly the adver
         "JSON; non-trivial = some non-zero set-point AND (a non-zero exclusion bound in the request direction or "
         "a zero-headroom group or a multi-inverter group)")
 REQUIRED_BUCKETS = ["supply", "consume", "multi-inverter", "zero-headroom-group", "zero-headroom-with-min-power",
-                    "power-kind:excl-edge", "power-kind:incl-edge", "nonzero-exclusion", "exponent-0", "manager-level",
+                    "power-kind:excl-edge", "power-kind:incl-edge", "nonzero-exclusion", "exponent-0", "manager-level", "manager-level:request-after-an-inverter-reported-narrower-bounds",
                     "setpoint-on-incl-bound", "setpoint-on-excl-bound"]
 REQUIRED_COUNTERS = ["contract_public", "inverter_setpoints_checked", "group_totals_checked", "enforced_bounds_observed",
                      "gate_probes_inside_the_exclusion_zone"]
@@ -69,6 +69,7 @@ def _manager_tier(case: dict[str, Any], rec: Any) -> None:
         rec.count("manager_set_power_calls", len(rnd["calls"]))
         dist = {int(c["id"]): float(c["watts"]) for c in rnd["calls"]}
         _judge(dict(case, exp=1.0), rec, band=True, dist=dist, stages=stages)
+    _derated_followup(case, plain, rec)
     # the admission gate: a request strictly inside the exclusion zone the pool advertises is either refused, or - if
     # the manager does take it - what it commands still has to respect every bound
     _, a_el, a_eu, _ = batdata.advertised(case)
@@ -85,6 +86,44 @@ def _manager_tier(case: dict[str, Any], rec: Any) -> None:
                 rec.bucket("manager-took-a-request-inside-the-advertised-exclusion-zone")
                 d2 = {int(c["id"]): float(c["watts"]) for c in r2["calls"]}
                 _judge(dict(probe, exp=1.0), rec, band=True, dist=d2, stages=st2)
+
+
+def _derated_followup(case: dict[str, Any], plain: dict[str, Any], rec: Any) -> None:
+    """A second request after one inverter has reported narrower bounds (nothing else was sent in between, and that
+    message is stamped before the newest battery message): what is commanded obeys the bounds as they are now."""
+    import copy
+
+    from frequenz.sdk.microgrid._power_distributing.result import Success
+
+    from ..vloop import LoopMonitor, run_virtual
+    from . import c15
+
+    g = int(abs(case["power"])) % len(case["groups"])
+    inv = case["groups"][g]["invs"][0]
+    factor = 0.3
+    if abs(inv["el"]) > abs(inv["il"]) * factor or abs(inv["eu"]) > abs(inv["iu"]) * factor:
+        return  # the derated inverter would report an exclusion bound beyond its inclusion bound: inconsistent data
+    trial = copy.deepcopy(case)
+    t = trial["groups"][g]["invs"][0]
+    t["il"], t["iu"] = t["il"] * factor, t["iu"] * factor
+    if not batdata.consistent(trial):
+        return  # (e.g. the group could no longer reach its own minimum power)
+    mcase = dict(plain, exp=1.0, kind="battery", latency=0.0, followup=True, adjust=True, timeout=5.0,
+                 derate={"g": g, "j": 0, "factor": factor})
+    for k in ("lat_vec", "reuse_request", "unusable", "bystander", "bat_concurrent"):
+        mcase.pop(k, None)
+    n = sum(len(x["invs"]) for x in case["groups"])
+    out: dict[str, Any] = {"rounds": []}
+    distmon._stage.clear()  # noqa: SLF001
+    run_virtual(lambda: c15._battery_run(mcase, ["ok"] * n, out), monitor=LoopMonitor())  # noqa: SLF001
+    if len(out["rounds"]) < 2 or not isinstance(out["rounds"][1].get("result"), Success) or not out["rounds"][1]["calls"]:
+        return
+    rec.bucket("manager-level:request-after-an-inverter-reported-narrower-bounds")
+    derated = copy.deepcopy(case)
+    d = derated["groups"][g]["invs"][0]
+    d["il"], d["iu"] = d["il"] * factor, d["iu"] * factor
+    dist = {int(c["id"]): float(c["watts"]) for c in out["rounds"][1]["calls"]}
+    _judge(dict(derated, exp=1.0, power_kind="after-derating"), rec, band=True, dist=dist, stages=copy.deepcopy(distmon._stage))  # noqa: SLF001
 
 
 def _judge(case: dict[str, Any], rec: Any, band: bool, dist: dict[int, float] | None = None,
